@@ -103,6 +103,7 @@ class State:
 
 
 ArrVV = z3.ArraySort(V, V)
+OPAQUE_TYPES = ["object", "Parameter", "Parameterized", "OrderedDict", "ListProxy", "Decimal"]
 
 
 class Interp:
@@ -346,6 +347,8 @@ class Interp:
             live = nxt
             if not live:
                 break
+            if len(live) > 1:
+                live = merge_states(live)
         return [(q, None) for q in live] + done
 
     def exec_stmt(self, s, st, ctx):
@@ -892,9 +895,14 @@ class Interp:
                 # symbolic operands; mixed types raise TypeError in Python 3.
                 same_sized = z3.And(vm.ty(ta) == vm.ty(tb),
                                     U.has_type(ta, ["str", "bytes", "tuple", "list"]))
-                for (r, b2) in self.branch(q, same_sized):
-                    if b2:
+                opaque = z3.Or(U.has_type(ta, OPAQUE_TYPES), U.has_type(tb, OPAQUE_TYPES))
+                for (r, knd2) in self.multi_branch(q, [("sized", same_sized), ("opaque", opaque)]):
+                    if knd2 == "sized":
                         out.append((r, BoolV(self.U.fresh_bool("ordcmp"))))
+                    elif knd2 == "opaque":
+                        # objects with user-defined rich comparison: outside the value model
+                        r.notes.append("ordering comparison of opaque objects: outside value model")
+                        out.append((r, Raise("$Unmodelled")))
                     else:
                         out.append((r, Raise("TypeError")))
         return out
@@ -1195,6 +1203,37 @@ class Interp:
         return calls.call(self, fv, args, kwargs, st, ctx)
 
 
+def merge_states(states):
+    """Join states that differ only in their path condition (same locals, heap, ghost): the
+    merged path condition is the common prefix plus the disjunction of the remainders."""
+    from .calls import _state_sig
+    groups, order = {}, []
+    for q in states:
+        k = _state_sig(q)
+        if k not in groups:
+            groups[k] = []
+            order.append(k)
+        groups[k].append(q)
+    out = []
+    for k in order:
+        grp = groups[k]
+        if len(grp) == 1:
+            out.append(grp[0])
+            continue
+        n = min(len(q.pc) for q in grp)
+        base = 0
+        while base < n and all(q.pc[base] is grp[0].pc[base] or q.pc[base].eq(grp[0].pc[base]) for q in grp[1:]):
+            base += 1
+        q0 = grp[0]
+        suffixes = [q.pc[base:] for q in grp]
+        if any(len(sf) == 0 for sf in suffixes):
+            q0.pc = q0.pc[:base]
+        else:
+            q0.pc = q0.pc[:base] + [z3.Or([z3.And(sf) if len(sf) > 1 else sf[0] for sf in suffixes])]
+        out.append(q0)
+    return out
+
+
 def message_only_start(stmts):
     """A block that ends in `raise`: the maximal run of statements before the raise that only
     build the exception message (they store only to local names, contain no return / raise /
@@ -1206,6 +1245,8 @@ def message_only_start(stmts):
     while k > 0:
         s = stmts[k - 1]
         ok = isinstance(s, (ast.Assign, ast.AugAssign, ast.If, ast.For, ast.Expr))
+        if ok and _escaping_jump(s):
+            ok = False
         if ok:
             for n in ast.walk(s):
                 if isinstance(n, (ast.Return, ast.Raise, ast.Yield, ast.YieldFrom, ast.Delete, ast.Global,
@@ -1219,6 +1260,23 @@ def message_only_start(stmts):
             break
         k -= 1
     return k if k < len(stmts) - 1 else None
+
+
+def _escaping_jump(s, depth=0):
+    """Does statement s contain a break/continue that would leave s?"""
+    if isinstance(s, (ast.Break, ast.Continue)):
+        return depth == 0
+    if isinstance(s, (ast.For, ast.While)):
+        return any(_escaping_jump(c, depth + 1) for c in s.body) or any(_escaping_jump(c, depth) for c in s.orelse)
+    for fld in ("body", "orelse", "finalbody"):
+        for c in getattr(s, fld, []) or []:
+            if isinstance(c, ast.stmt) and _escaping_jump(c, depth):
+                return True
+    for h in getattr(s, "handlers", []) or []:
+        for c in h.body:
+            if _escaping_jump(c, depth):
+                return True
+    return False
 
 
 def _as_load(t):
